@@ -162,6 +162,7 @@ def run(O, P):
     t0 = time.time()
     results = run_batches(O, cases, "c13", 240 if O.tier == "quick" else 1200)
     outcomes = collections.Counter()
+    pending_panics = []
     found = 0
     for item in results:
         if item[0] == "HANG-OR-CRASH":
@@ -185,7 +186,7 @@ def run(O, P):
         oc = call.get("outcome")
         outcomes[oc + ("/" + call["result"]["metrics"]["status"] if oc == "ok" and call["result"].get("metrics") else "")] += 1
         if oc == "panic":
-            O.violation("panic: %s" % call.get("panic", "")[:300], {"case": case}); found += 1
+            pending_panics.append((case, call.get("panic", "")))
         elif oc == "error":
             if not (call.get("error") or "").strip():
                 O.violation("an error without a diagnostic", {"case": case}); found += 1
@@ -195,6 +196,25 @@ def run(O, P):
             O.nontrivial.add(hashlib.sha1(json.dumps([case["calls"][0], case.get("config")], sort_keys=True).encode()).hexdigest())
             if len(O.samples) < 5 and case["id"].startswith(("c13map", "c13special")):
                 O.samples.append({"id": case["id"], "file": case["calls"][0]["file"][:60], "code": case["calls"][0]["code"][:120], "outcome": oc})
+    # panics raised inside a third-party crate while it rejects a program that is not valid JavaScript (V8 agrees it is a
+    # syntax error) are a recorded finding; every other panic -- in the repository's own code, or on a valid program -- is a violation
+    if pending_panics:
+        known = [k for k in C.known_for("C13") if k.get("class") == "third-party-panic-on-invalid-program"]
+        jobs = [{"id": "p%d" % i, "code": c["calls"][0]["code"], "kind": "script"} for i, (c, _) in enumerate(pending_panics)]
+        jobs += [{"id": "m%d" % i, "code": c["calls"][0]["code"], "kind": "module"} for i, (c, _) in enumerate(pending_panics)]
+        pr = vlib.run_node("node_parse.js", jobs) or []
+        okmap = {x["id"]: x for x in pr}
+        for i, (c, msg) in enumerate(pending_panics):
+            third_party = "/registry/src/" in msg and "/swc_" in msg
+            a, b = okmap.get("p%d" % i), okmap.get("m%d" % i)
+            invalid = bool(a and b and not a["ok"] and not b["ok"] and "SyntaxError" in (a.get("error") or "") )
+            if known and third_party and invalid:
+                line = "%s: %s" % (known[0]["id"], known[0]["what"])
+                if line not in O.known:
+                    O.known.append(line)
+                O.coverage["third_party_panics_on_invalid_programs"] = O.coverage.get("third_party_panics_on_invalid_programs", 0) + 1
+            else:
+                O.violation("panic: %s" % msg[:400], {"case": c, "v8_script": a, "v8_module": b}); found += 1
     for what in reopened[:3]:
         if found == 0:
             O.break_("C13 obligation re-opened: " + what, {"obligation": what, "table": "panic_sites.json"})
